@@ -461,9 +461,10 @@ class SSHKnownHosts:
 
         """
         # match any non whitespace from start of the line... this should cover v4/v6/names
-        # skip a space and match any word (also w/ hyphen) to get key type, lastly
+        # skip a space and match any word (also w/ hyphen, at sign and period as in
+        # "sk-ssh-ed25519@openssh.com") to get key type, lastly
         # match any non whitespace to the end of the line to get the public key
-        host_pattern = re.compile(r"^\S+\s[\w\-]+\s\S+$", flags=re.I | re.M)
+        host_pattern = re.compile(r"^\S+\s[\w\-@.]+\s\S+$", flags=re.I | re.M)
         host_entries = re.findall(pattern=host_pattern, string=self.ssh_known_hosts)
 
         known_hosts: Dict[str, Dict[str, str]] = {}
